@@ -830,6 +830,12 @@ def gen_executor(ev):
         "elif old_file_hash.is_unknown: raise ConsistencyError('A step was scheduled with a missing input file.')",
         "return HashComputeResult(messages, new_inp_hashes, all_inp_hashes)",
     ]
+    if len(got) == 5:
+        # second reviewed shape (proposed fix findings.d/C03-unreadable-input): same decision for
+        # readable files and missing paths, see translator/gen_fresh_stat.py
+        from .gen_fresh_stat import INP_LOOP_UNREADABLE_REPORTED
+        if got[3] == INP_LOOP_UNREADABLE_REPORTED:
+            got[3] = exp[3]
     if got != exp:
         raise TranslatorError("hash.compute_inp_hashes changed")
     # FileHash equality: digest, mode, size (mtime and inode excluded)
